@@ -403,10 +403,10 @@ fn main() {
     ctx.replayer("fft-history", |v| run_case(&serde_json::from_value::<Case>(v.clone()).expect("case")));
     ctx.begin();
     let release = !cfg!(debug_assertions);
-    ctx.prop_split("histories-f64-small", "fft-history", ctx.n(6_000, 120_000), ctx.parts(), case(0, 7, 12).boxed(), run_case);
+    ctx.prop_split("histories-f64-small", "fft-history", ctx.n(6_000, 1_000_000), ctx.parts(), case(0, 7, 12).boxed(), run_case);
     ctx.prop_split("histories-f64", "fft-history", ctx.n(1_200, 20_000), ctx.parts(), case(0, ctx.n(11, 14) as u32, 8).boxed(), run_case);
-    ctx.prop_split("histories-f32", "fft-history", ctx.n(5_000, 100_000), ctx.parts(), case(1, 9, 12).boxed(), run_case);
-    ctx.prop("single-calls-f64", "fft-history", ctx.n(20_000, 400_000), case(0, 8, 1), run_case);
+    ctx.prop_split("histories-f32", "fft-history", ctx.n(5_000, 800_000), ctx.parts(), case(1, 9, 12).boxed(), run_case);
+    ctx.prop("single-calls-f64", "fft-history", ctx.n(20_000, 3_000_000), case(0, 8, 1), run_case);
     // tables beyond 2^16 entries (then a small product on the same object): explicit histories, both profiles
     {
         let big = |len: u32, shape: u8, seed: u32| Poly { len, shape, seed };
